@@ -78,15 +78,19 @@ PROPS["C20"] = dict(
           "from 0 per key change, explicit nonces == counter, explicit CBC IVs pairwise distinct; (c) 3..5 connections with pairwise distinct "
           "seeds (random / one-bit / length-only differences) compared field by field, plus an equal-seed pair compared byte by byte. "
           "non-trivial = gate histories, sessions with >= 1 key change beyond the first, seed pairs; distinct by their parameters"),
-    assumptions=["quality of the entropy source itself is out of scope", "ESP8266 hardware RNG seeder cannot be compiled here"],
+    assumptions=["quality of the entropy source itself is out of scope", "ESP8266 hardware RNG seeder cannot be compiled here",
+                 "the /dev/urandom seeder is exercised in a build where it is the only system seeder and its open/read/close are routed to the harness (scripted short reads, EINTR, errors, end of file)"],
     targets=[dict(name="c20_random", src="c20_random.cpp", flavour="san", libs=SSL_LIBS, noseed=True),
-             dict(name="c20_sysseed", src="c20_sysseed.cpp", flavour="san", libs=SSL_LIBS, noseed=False)],
+             dict(name="c20_sysseed", src="c20_sysseed.cpp", flavour="san", libs=SSL_LIBS, noseed=False),
+             dict(name="c20_seeder", src="c20_seeder.cpp", flavour="san", libs=SSL_LIBS, urandom_seeder=True)],
     quick=[("c20_random", "enum", dict(shards=16)),
            ("c20_random", "rc", dict(cases=960, shards=16)),
-           ("c20_sysseed", "rc", dict(cases=16, shards=2))],
+           ("c20_sysseed", "rc", dict(cases=16, shards=2)),
+           ("c20_seeder", "rc", dict(cases=4000, shards=4))],
     thorough=[("c20_random", "enum", dict(shards=16)),
               ("c20_random", "rc", dict(cases=16000, shards=16)),
-              ("c20_sysseed", "rc", dict(cases=200, shards=4))],
+              ("c20_sysseed", "rc", dict(cases=200, shards=4)),
+              ("c20_seeder", "rc", dict(cases=100000, shards=8))],
     floor=dict(quick=300, thorough=3000),
 )
 
